@@ -101,7 +101,10 @@ func (g *Gen) run() (err error) {
 			case unsupported:
 				g.obls = append(g.obls, &Obl{Name: g.key + "/unsupported", Fn: g.key, Kind: "unsupported", Src: e.msg, Verdict: "unsupported", gen: g})
 			case specErr:
-				err = fmt.Errorf("%s: contract error: %s", g.key, e.msg)
+				// the contract no longer fits the function (a clause names something the code does
+				// not have): a failed obligation by name, reported like any other, not a machinery error
+				g.obls = append(g.obls, &Obl{Name: g.key + "/contract/unevaluable", Fn: g.key, Kind: "contract", Src: "a clause of the contract cannot be evaluated against the current code",
+					Verdict: "unevaluable", Output: e.msg, gen: g})
 			default:
 				panic(r)
 			}
@@ -620,11 +623,44 @@ func (g *Gen) enterLoop(li *loopInfo) *State {
 	}
 	vars := g.scopeAt(b, nil, st)
 	env := g.env(st, vars)
-	for _, inv := range li.spec.Inv {
-		g.assume(st, env.tr(inv).S)
+	// a clause that cannot be evaluated here (e.g. it names a variable the code no longer
+	// has) is a failed obligation by name, not a machinery error; it is then not assumed
+	trOK := func(e *E, what string, j int) (string, bool) {
+		var t, msg string
+		func() {
+			defer func() {
+				if r := recover(); r != nil {
+					if se, ok := r.(specErr); ok {
+						msg = se.msg
+						return
+					}
+					panic(r)
+				}
+			}()
+			t = env.tr(e).S
+		}()
+		if msg != "" {
+			o := &Obl{Name: fmt.Sprintf("%s/loop%d/%s%d/unevaluable", g.key, li.ord, what, j+1), Fn: g.key, Kind: fmt.Sprintf("loop%d", li.ord), Src: e.String(),
+				Verdict: "unevaluable", Output: "the clause cannot be evaluated at the loop head: " + msg, gen: g}
+			if li.minPos.IsValid() {
+				p := g.prog.Fset.Position(li.minPos)
+				o.Pos = fmt.Sprintf("%s:%d", p.Filename, p.Line)
+			}
+			g.obls = append(g.obls, o)
+			return "", false
+		}
+		return t, true
 	}
-	for _, h := range li.spec.Hints {
-		t := env.tr(h).S
+	for j, inv := range li.spec.Inv {
+		if t, ok := trOK(inv, "inv", j); ok {
+			g.assume(st, t)
+		}
+	}
+	for j, h := range li.spec.Hints {
+		t, ok := trOK(h, "hint", j)
+		if !ok {
+			continue
+		}
 		g.assert(st, fmt.Sprintf("loop%d", li.ord), "hint", t, h.String(), li.minPos)
 		g.assume(st, t)
 	}
